@@ -2,6 +2,7 @@ import Driver.OpsTemplate
 import BufrModel.SetValue
 import BufrModel.Decode
 import BufrModel.Merge
+import BufrModel.Frame
 import BufrSpec.RefDecode
 import BufrSpec.RefEncode
 /- driver ops for values, Section 4 encoding and decoding (C01–C04, C07, C14) -/
@@ -141,6 +142,7 @@ partial def stepCodec (st : TmplSt) (cs : CodecSt) (toks : List String) : Option
       some (st, { cs with last := some (flag, ss.length, w.bytes) }, s!"{flag} {ss.length} {toHex w.bytes}")
     | _, _ => some (st, cs, "none")
   | ["ds.decode", ed, enf, flag, nsub, fr, to, descs, h] =>
+    if !st.haveTables then some (st, cs, "bad-op") else
     match ed.toNat?, parseEnforce enf, flag.toNat?, nsub.toNat?, fr.toInt?, to.toInt?,
           ((descs.splitOn ",").filter (· ≠ "")).mapM (·.toNat?), parseHex h with
     | some ed, some enf, some flag, some nsub, some fr, some to, some ds, some bytes =>
@@ -201,6 +203,27 @@ partial def stepCodec (st : TmplSt) (cs : CodecSt) (toks : List String) : Option
         | some subs' => if subs' = subs then some (st, cs, s!"{flag'} {toHex (Spec.bitsToBytes bits)}") else some (st, cs, "spec-mismatch")
         | none => some (st, cs, "spec-reject")
     | _, _, _, _, _, _ => some (st, cs, "bad-op")
+  | ["ds.decodemsg", h] =>
+    -- `bufr_memread_message` then `bufr_decode_message` (default enforcement of a message read: warn)
+    match (if st.haveTables then parseHex h else none) with
+    | none => some (st, cs, "bad-op")
+    | some bytes =>
+      match Frame.readMessage bytes with
+      | .err => some (st, { cs with decoded := #[], decTmpl := none }, "noread")
+      | .ok (m, consumed) =>
+        let pre := s!"read {consumed} "
+        match createTemplate T defaultFuel m.edition m.descs with
+        | .error .fuel => some (st, cs, "diverge")
+        | .error _ => some (st, { cs with decoded := #[], decTmpl := none }, pre ++ "null")
+        | .ok t =>
+          match decodeData T defaultFuel t .warnAllow m.nSubsets (m.s3Flag &&& 64 ≠ 0) m.s4Len m.s4Data 0 0 with
+          | .error .fuel => some (st, cs, "diverge")
+          | .error .abort => some (st, cs, "abort")
+          | .error .null => some (st, cs, "crash")
+          | .ok none => some (st, { cs with decoded := #[], decTmpl := none }, pre ++ "null")
+          | .ok (some out) =>
+            some (st, { decoded := out.subsets.toArray, decInvalid := out.invalid, decTmpl := some t, last := cs.last },
+              pre ++ s!"ok {if out.invalid then 1 else 0} {out.subsets.length}")
   | ["dd.tocur"] =>
     -- the decoded dataset becomes the current one
     match cs.decTmpl with
